@@ -5,7 +5,7 @@
      (filter change of one of two overlapping subscriptions) and F38 (initial values overtaken by a pending removal). *)
 From Coq Require Import List NArith ZArith Bool Arith Lia.
 From Muscle Require Import Gen.Consts Refl.Base Refl.BaseProofs Refl.Tree Refl.Matcher Refl.Traverse Refl.Session Refl.Server
-     Refl.ServerProofs Refl.RefcountProofs Refl.Mirror Refl.MirrorSubscribe Refl.MirrorCmd Refl.MirrorFrame Refl.MirrorQuiet Refl.MirrorProofs Refl.MirrorCheck Refl.Concrete Refl.Examples.
+     Refl.ServerProofs Refl.RefcountProofs Refl.Mirror Refl.MirrorSubscribe Refl.MirrorCmd Refl.MirrorFrame Refl.MirrorQuiet Refl.MirrorProofs Refl.MirrorCheck Refl.MirrorStale Refl.Concrete Refl.Examples.
 Import ListNotations.
 Local Open Scope N_scope.
 
@@ -145,7 +145,7 @@ Definition exq : list event :=
   [ EAttach 0 1 10; EAttach 1 1 11; EAttach 2 1 12;
     ECmd 0 (CSubscribe false [(Abs [CAny; CLit 11; CAny], None)]);
     ECmd 1 (CSetData 0 [([21], 6)]);
-    ECmd 2 (CSetData c_SETDATANODE_FLAG_QUIET [([21], 7); ([22; 23], 8)]);
+    ECmd 2 (CSetData (N.shiftl 1 c_SETDATANODE_FLAG_QUIET) [([21], 7); ([22; 23], 8)]);
     ECmd 2 (CBatch [CRemoveData true [([CLit 22], None)]; CSetData 0 [([24], 1)]]);
     ECmd 1 (CSetData 0 [([21], 9)]) ].
 
@@ -225,4 +225,27 @@ Example exu_nontrivial :
   /\ holds_at (world_run all_fixed exu empty_world) 0 [1; 11; 23] = true
   /\ option_map (fun c => length (c_mirror c)) (find (fun c => N.eqb (c_id c) 0) (w_clients (world_run all_fixed (firstn 4 exu) empty_world))) = Some 3%nat
   /\ option_map (fun c => length (c_mirror c)) (find (fun c => N.eqb (c_id c) 0) (w_clients (world_run all_fixed exu empty_world))) = Some 1%nat.
+Proof. vm_compute. repeat split; reflexivity. Qed.
+
+(* ------------------------------------------------------------------ quiet changes the observer can see (mirror_converges_announced) *)
+
+(* the observer 0 watches a*; session 1 changes ab and creates ac QUIETLY, then sets ad loudly: the mirror keeps the old ab,
+   knows nothing of ac, and is exact at ad -- ab and ac are the collected (stale) paths *)
+Definition exs : list event :=
+  [ EAttach 0 1 10; EAttach 1 1 11;
+    ECmd 1 (CSetData 0 [([21], 6)]);
+    ECmd 0 (CSubscribe false [(Rel [a_star], None)]);
+    ECmd 1 (CSetData (N.shiftl 1 c_SETDATANODE_FLAG_QUIET) [([21], 7); ([22], 2)]);
+    ECmd 1 (CSetData 0 [([20], 1)]) ].
+
+Example exs_premises :
+  wf_wrun_b all_fixed empty_world exs = true /\ forallb (ev_oks_b 0) exs = true
+  /\ stale_run all_fixed 0 empty_world exs [] = [[1; 11; 21]; [1; 11; 21]; [1; 11; 22]].
+Proof. vm_compute. repeat split; reflexivity. Qed.
+
+Example exs_nontrivial :
+  holds_at (world_run all_fixed exs empty_world) 0 [1; 11; 20] = true            (* exact where nothing happened quietly *)
+  /\ holds_at (world_run all_fixed exs empty_world) 0 [1; 11; 21] = false        (* stale at ab: the restriction is needed *)
+  /\ holds_at (world_run all_fixed exs empty_world) 0 [1; 11; 22] = false
+  /\ option_map (fun c => length (c_mirror c)) (find (fun c => N.eqb (c_id c) 0) (w_clients (world_run all_fixed exs empty_world))) = Some 2%nat.
 Proof. vm_compute. repeat split; reflexivity. Qed.
